@@ -198,9 +198,10 @@ type importUsed bool
 
 type File struct {
 	fileDecls
-	fname string
-	imps  map[string]*ast.Ident // importPath => impRef (nil means force-import)
-	dirty bool
+	fname  string
+	imps   map[string]*ast.Ident // importPath => impRef (nil means force-import)
+	forced map[string]none       // force-imported paths that also have an impRef
+	dirty  bool
 }
 
 func newFile(fname string) *File {
@@ -208,19 +209,32 @@ func newFile(fname string) *File {
 }
 
 func (p *File) newImport(name, pkgPath string) *ast.Ident {
-	id := p.imps[pkgPath]
+	id, existed := p.imps[pkgPath]
 	if id == nil {
+		if existed { // was force-imported: stays so if no reference survives
+			if p.forced == nil {
+				p.forced = make(map[string]none)
+			}
+			p.forced[pkgPath] = none{}
+		}
 		id = &ast.Ident{Name: name, Obj: &ast.Object{Data: importUsed(false)}}
 		p.imps[pkgPath] = id
-		p.dirty = true
 	}
+	// a reference is being created: the file has to be scanned again before it is written, also
+	// when the package was imported (but not yet used) before an earlier write
+	p.dirty = true
 	return id
 }
 
 func (p *File) forceImport(pkgPath string) {
-	if _, ok := p.imps[pkgPath]; !ok {
+	if id, ok := p.imps[pkgPath]; !ok {
 		p.imps[pkgPath] = nil
 		p.dirty = true
+	} else if id != nil { // referenced before: if no reference survives, it is still force-imported
+		if p.forced == nil {
+			p.forced = make(map[string]none)
+		}
+		p.forced[pkgPath] = none{}
 	}
 }
 
@@ -254,7 +268,7 @@ const (
 func (p *File) CheckXGoDeps(this *Package) (flags int) {
 	p.markUsed(this)
 	for pkgPath, id := range p.imps {
-		if id == nil || id.Obj.Data.(importUsed) {
+		if _, forced := p.forced[pkgPath]; forced || id == nil || bool(id.Obj.Data.(importUsed)) {
 			if isPkgInMod(pkgPath, "github.com/qiniu/x") {
 				flags |= FlagDepModX
 			} else if isPkgInMod(pkgPath, "github.com/goplus/xgo") ||
@@ -270,7 +284,8 @@ func (p *File) getDecls(this *Package) (decls []ast.Decl) {
 	p.markUsed(this)
 	specs := make([]ast.Spec, 0, len(p.imps))
 	for pkgPath, id := range p.imps {
-		if id == nil { // force-used
+		_, forced := p.forced[pkgPath]
+		if id == nil || (forced && !bool(id.Obj.Data.(importUsed))) { // force-used
 			specs = append(specs, &ast.ImportSpec{
 				Name: underscore, // _
 				Path: astStringLit(pkgPath),
